@@ -1,7 +1,7 @@
 (* Props/C04.v -- property C04: jumps, calls, returns and the stack follow conditions and addresses exactly.
    The clauses below are theorems about the specification's exec, for every F, B, PC, SP (wrap included: all
    address arithmetic is u16 = mod 65536); C04_tie states that the real code is that specification. *)
-From Z80V Require Import Proofs.SpecFacts.
+From Z80V Require Import Proofs.SpecFacts Proofs.RoundTrip Proofs.Iter.
 
 Theorem C04_conditions : forall f,
   cond NZ f = negb (Z.testbit f 6) /\ cond Z_ f = Z.testbit f 6 /\
@@ -78,3 +78,17 @@ Print Assumptions C04_word_roundtrip.
 Theorem C04_tie : forall cpu, WF cpu -> executeOne cpu = step_instr impl_unspec cpu.
 Proof. exact executeOne_ok. Qed.
 Print Assumptions C04_tie.
+
+(* ---- CALL nn ; RET as two generated Steps: control is back at the instruction after the CALL, SP and every register
+   restored, the return address was stored high byte at SP-1, low byte at SP-2 ---- *)
+Theorem C04_call_ret_round_trip : forall cpu, WF cpu -> g_Memory cpu = UserMem -> g_Interrupt cpu = None ->
+  let pc := g_PC cpu in let nn := mk16 (u8 (ram (g_W cpu) (u16 (u16 (pc + 1) + 1)))) (u8 (ram (g_W cpu) (u16 (pc + 1)))) in
+  let sp1 := u16 (g_SP cpu - 1) in let sp2 := u16 (sp1 - 1) in
+  u8 (ram (g_W cpu) pc) = 205 -> u8 (ram (g_W cpu) nn) = 201 -> sp1 <> nn -> sp2 <> nn ->
+  let cpu' := iter 2 cpu in
+  g_GPR cpu' = g_GPR cpu /\ g_Alternate cpu' = g_Alternate cpu /\ g_IX cpu' = g_IX cpu /\ g_IY cpu' = g_IY cpu /\
+  g_SP cpu' = g_SP cpu /\ g_PC cpu' = u16 (u16 (u16 (pc + 1) + 1) + 1) /\
+  g_IFF1 cpu' = g_IFF1 cpu /\ g_IFF2 cpu' = g_IFF2 cpu /\
+  ram (g_W cpu') = upd (upd (ram (g_W cpu)) sp1 (hi (u16 (u16 (u16 (pc + 1) + 1) + 1)))) sp2 (lo (u16 (u16 (u16 (pc + 1) + 1) + 1))).
+Proof. intros cpu H. cbv zeta. rewrite iter_ok by exact H. exact (call_ret_round_trip impl_unspec cpu H). Qed.
+Print Assumptions C04_call_ret_round_trip.
